@@ -74,7 +74,12 @@ func HFlistDecode() {
 			e.Mode = symMode()
 		}
 		e.Uid, e.Gid, e.Rdev = nd_i32(), nd_i32(), nd_i32()
-		e.Target = nd_string(1)
+		// link target: 2 arbitrary bytes on the last entry (covers "a/", "./", "//", ".."), 1 before
+		if lean {
+			e.Target = nd_string(1)
+		} else {
+			e.Target = nd_string(2)
+		}
 		copy(e.Sum[:], nd_bytes(16))
 		if i > 0 {
 			// "same as previous" liberties; the mask is concrete (instance parameter) or symbolic
